@@ -260,7 +260,15 @@ def _maybe_wrap_new(new):
         return new
 
     if inspect.isfunction(new) or isinstance(new, (classmethod, staticmethod)):
-        return asynq(sync_fn=new)(new)
+        fn = getattr(new, "__func__", new)
+
+        async def asyncio_fn(*args, **kwargs):
+            # Like _AsyncioWrapper: the replacement is an ordinary synchronous callable. Found on a
+            # class, the decorator's own .asyncio is used (__get__ makes a new decorator), which
+            # would otherwise run the replacement in asyncio mode, unlike the other conventions.
+            return fn(*args, **kwargs)
+
+        return asynq(sync_fn=new, asyncio_fn=asyncio_fn)(new)
     elif not callable(new):
         return new
 
